@@ -73,6 +73,8 @@ var c06PlainWord = regexp.MustCompile(`^([^A-Za-z0-9&(]*)([A-Za-z]+)([^A-Za-z0-9
 
 // c06SplitWord: words that may be hyphenated over a line break: plain words and plain numbers of four or more digits
 // (years); in a number the tokenizer keeps '-' as part of the token, so only the line-end rule removes the hyphen.
+var c06NumericMarker = regexp.MustCompile(`^[0-9]+(\.[0-9]+)*[.)]$`)
+
 var c06SplitWord = regexp.MustCompile(`^([^A-Za-z0-9&(]*)([A-Za-z]+|[0-9]{4,})([^A-Za-z0-9]*)$`)
 
 func openClass(name string) bool {
@@ -195,6 +197,14 @@ func c06Check(ci interface{}) lib.Outcome {
 				mk := op.M
 				if mk == "" {
 					mk = c06Markers[(op.Arg+p)%len(c06Markers)]
+				}
+				if inX := c07MarkersIn(x); len(inX) > 0 && (op.Arg+p)%2 == 0 {
+					// a marker that also occurs in the text itself, not at a line start there ("under version 2.",
+					// "item 1."): the same word is a marker in one place and a number in another
+					// numeric ones only ("2.", "3.1.", "10)"): what else counts as a marker is for the statement's list to say
+					if cand := inX[(op.Arg+p)/2%len(inX)]; c06NumericMarker.MatchString(cand) {
+						mk = cand
+					}
 				}
 				f := strings.Fields(ls[i].s)
 				if fr[i] || ls[i].orig < 0 || noticeLike(ls[i].s) || len(f) == 0 || endsLikeHeader(f[0]) {
